@@ -57,7 +57,7 @@ Definition to_ev (x : xev) : nat * ev :=
   | XAdv dt => (0%nat, Advance dt)
   end.
 
-Definition ocode (o : outcome) : Z := match o with OK => 0 | AcceptableErr => 1 | UnacceptableErr => 2 | Panics => 3 end.
+Definition ocode (o : outcome) : Z := match o with OK => 0 | AcceptableErr => 1 | UnacceptableErr => 2 | Panics => 3 | PanicsNil => 4 end.
 Definition code_of (o : obs) : Z :=
   match o with
   | ONone => 0 | OLetIn => 1
